@@ -22,7 +22,7 @@ RULE = ('case = a fresh directory holding 1-4 include targets and an including c
         'with selector :n for n in 0..separators+2. Part "missing" redirects one include line to a target that '
         'does not exist (unknown name, existing stem with another extension, existing or absent sub-directory, '
         'with selector). Non-trivial = >= 2 include lines or a tab selector; distinct by generating seed.'
-        " The cart lives in a scratch directory, directly in ~/.lexaloffle/pico-8/carts (HOME redirected) or in a game folder below it (include names stay relative to the cart's own directory; same-named decoy files sit in the carts directory)."
+        " A third of the carts are loaded by bare file name from inside their own directory (one process loads many different `main.p8`). The cart lives in a scratch directory, directly in ~/.lexaloffle/pico-8/carts (HOME redirected) or in a game folder below it (include names stay relative to the cart's own directory; same-named decoy files sit in the carts directory)."
         ' An eighth of the cart targets use 14-18 editor tabs, with selectors at the last tabs and one past them.'
         ' Cart targets without code may lack the __lua__ section altogether (two fixed specs and random ones); string statements of targets may hold P8SCII bytes that are well-formed UTF-8.'
         ' .lua targets may contain a bare CR inside a long string / comment; near-separator lines include indented -->8.'
@@ -510,12 +510,19 @@ def check_spec(spec, case):
                 raise SelfCheckError('include %r: file existence %r does not match the generated targets' % (path, exists))
         old_home = os.environ.get('HOME')
         os.environ['HOME'] = home
+        # a third of the carts are named the way a shell user names them: by bare file name from inside their own
+        # directory (every case has a directory of its own, so one process loads many different `main.p8`)
+        by_name = len(spec['main_code']) % 3 == 0
+        old_cwd = os.getcwd()
         try:
-            g = pfile.from_file(main)
+            if by_name:
+                os.chdir(os.path.dirname(main))
+            g = pfile.from_file(os.path.basename(main) if by_name else main)
             err = None
         except Exception as e:
             g, err = None, e
         finally:
+            os.chdir(old_cwd)
             if old_home is None:
                 del os.environ['HOME']
             else:
